@@ -6,13 +6,13 @@ import pipeline
 import talgen
 
 PID = 'C11'
-PROOF_MODULES = ['ChamProofs.Props.C11', 'ChamProofs.Props.C03', 'ChamProofs.Props.C11Clause', 'ChamProofs.Ties']
+PROOF_MODULES = ['ChamProofs.Props.C11', 'ChamProofs.Props.C03', 'ChamProofs.Props.C11Clause', 'ChamProofs.Ties', 'ChamProofs.Props.C11Loc']
 THEOREMS = ['ChamVerif.anchored_slice', 'ChamVerif.anchored_lstripBy', 'ChamVerif.anchored_rstripBy', 'ChamVerif.anchored_stripBy',
             'ChamVerif.anchored_split_parts', 'ChamVerif.C11_split_anchored', 'ChamVerif.C11_split_counterexample_before_fix',
             'ChamVerif.C11_quirk_fixed', 'ChamVerif.C11_location_line', 'ChamVerif.C03_tokens_anchored',
             'ChamVerif.splitParts_anchored', 'ChamVerif.C11_defines_error_anchored', 'ChamVerif.C11_attributes_error_anchored',
             'ChamVerif.C11_substitution_error_anchored',
-            'ChamVerif.tie_whitelists']
+            'ChamVerif.tie_whitelists', 'ChamVerif.C11Loc.lineStart_body', 'ChamVerif.C11Loc.C11_location_exact']
 LEVEL_TEXT = ('Proved in Lean for every source, token and argument: the position algebra of Token keeps tokens anchored — a slice, a left/right/'
               'both-sided strip and every part of split(sep) of an anchored token is again the source slice at its position '
               '(anchored_slice, anchored_*stripBy, C11_split_anchored; the last for the separator-counting split /repo has after the D-11a '
@@ -25,7 +25,7 @@ LEVEL_TEXT = ('Proved in Lean for every source, token and argument: the position
               'and tied to the code by correspondence on planted faults; the oracle judges source[offset:offset+len(token)] == token, the '
               'exception class and non-rejection of the fault-free base on the implementation alone.')
 LEVEL_NOTE = ('Trusted: Lean kernel; the model of the raise sites (validated by correspondence); Python\'s SyntaxError messages are taken from '
-              'ast.parse by the harness. Known findings: D-11b (tokens of expressions containing entities, ";;" or newlines are the transformed '
+              'ast.parse by the harness. Line and column identify the offset exactly, for every source and offset: the offset is the start of the reported line (the position after the line-1-th line feed) plus the column, and no line feed lies between (C11_location_exact; only \\n is a line end: form feed, U+0085, U+2028 are ordinary characters). Known findings: D-11b (tokens of expressions containing entities, ";;" or newlines are the transformed '
               'text), D-11c (unknown expression prefix: LookupError), '
               'D-11d (tal:repeat with two clauses: AssertionError), D-01a (tal:switch and tal:case on one element: AssertionError), D-11f '
               '(undeclared prefix in an attribute name: KeyError).')
@@ -70,7 +70,7 @@ def plant(rng):
                        'bad-interpolation', 'name-outside', 'comment--', 'fill-no-use', 'entity-before', 'newline-in-expr',
                        'unknown-tal', 'unknown-prefix', 'repeat-two', 'switch+case', 'undeclared-ns',
                        'define-n', 'define-n', 'attributes-n', 'attributes-n', 'i18n-attributes-n',
-                       'unknown-data', 'unknown-data', 'data-content-bad'])
+                       'unknown-data', 'unknown-data', 'data-content-bad', 'empty-value', 'empty-value'])
     el = None
     exp = None
     finding = None
@@ -83,7 +83,18 @@ def plant(rng):
         for _ in range(nth + 1):
             i = s.index(sub, i + 1)
         return i
-    if kind in ('content', 'replace', 'condition', 'omit', 'switch'):
+    if kind == 'empty-value':
+        # the offending text is empty: the token is '' and stands where the missing statement / expression would stand
+        st, val, cls, delta = rng.choice([('define', '', 'LanguageError', 0), ('repeat', '', 'LanguageError', 0), ('condition', '', 'ExpressionError', 0),
+                                          ('attributes', '', 'ExpressionError', 0), ('content', '', 'ExpressionError', 0), ('replace', '', 'ExpressionError', 0),
+                                          ('content', 'structure ', 'ExpressionError', 10), ('define', 'x ', 'ExpressionError', 2),
+                                          ('on-error', '', 'ExpressionError', 0), ('content', '  ', 'ExpressionError', 2), ('switch', '', 'ExpressionError', 0),
+                                          ('repeat', 'x ', 'ExpressionError', 2)])
+        el = '<p tal:%s="%s">x</p>' % (st, val)
+        base = '<p tal:%s="%s">x</p>' % (st, {'define': 'x 1', 'repeat': 'x [1]', 'attributes': 'title 1'}.get(st, '1'))
+        exp = (cls, '', len(pre) + el.index('="') + 2 + delta)
+        nontrivial = True
+    elif kind in ('content', 'replace', 'condition', 'omit', 'switch'):
         st = {'omit': 'omit-tag'}.get(kind, kind)
         el = '<p tal:%s="%s">x</p>' % (st, bad)
         base = '<p tal:%s="%s">x</p>' % (st, good)
@@ -360,6 +371,15 @@ def judge_disagreement(ctx, d):
 
 
 def reproduce_finding(ctx, f):
+    if f['id'] == 'D-11g':
+        from chameleon import PageTemplate
+        try:
+            PageTemplate('<div tal:define="my-var 1">x</div>')
+            return False
+        except SyntaxError as e:
+            return type(e) is SyntaxError
+        except Exception:
+            return False
     return None
 
 
